@@ -10,7 +10,8 @@ Nothing is timing dependent: updates happen inside plan code (between messages),
 suspension waits for, or from the main thread while the engine is paused; no sleeps, no timers.
 
 Scenario steps (plan level):
-  ["open", key] ["close", key] ["monitor", key, obj(, channel)] ["unmonitor", key, obj] ["update", obj, v(, channel)]
+  ["open", key] ["close", key] ["monitor", key, obj(, channel(, "fault"))]   ("fault": subscribe() registers, then raises)
+  ["unmonitor", key, obj] ["update", obj, v(, channel)]
   ["resume_msg"]        (channel: the event_type keyword of the 'monitor' message / the channel the device updates)
   ["pause", [updates...], decision]                      decision in resume/abort/stop/halt
   ["suspend", pre_steps, during, post_steps]             pre/post: simple steps run as pre_plan/post_plan;
@@ -54,6 +55,8 @@ class Sig:
         self.ctx = ctx
         self.v = 0
         self.subs = []
+        self.fault_next = False     # the next subscribe() registers the callback and THEN raises (ophyd's run=True: the first
+        #                             delivery to the new callback fails on a transient read time-out)
 
     def read(self):
         return {self.name: {"value": self.v, "timestamp": 0.0}}
@@ -76,6 +79,9 @@ class Sig:
         chan = event_type or "default"
         self.ctx.add(("sub", self.name, self._run_of(cb), chan))
         self.subs.append((cb, chan))
+        if self.fault_next:
+            self.fault_next = False
+            raise TimeoutError("first delivery to the new callback timed out")
 
     def clear_sub(self, cb):
         self.ctx.add(("clr", self.name, self._run_of(cb)))
@@ -153,6 +159,8 @@ def run_scenario(case, RE):
             elif kind == "monitor":
                 ctx.monctr += 1
                 kw = {"event_type": st[3]} if len(st) > 3 and st[3] != "default" else {}
+                if len(st) > 4 and st[4] == "fault":
+                    ctx.sigs[st[2]].fault_next = True
                 yield Msg("monitor", ctx.sigs[st[2]], run=st[1], name="%s_mon%d" % (st[2], ctx.monctr), **kw)
             elif kind == "unmonitor":
                 yield Msg("unmonitor", ctx.sigs[st[2]], run=st[1])
@@ -161,6 +169,11 @@ def run_scenario(case, RE):
             ctx.add(("out", "Ok"))
         except IllegalMessageSequence:
             ctx.add(("out", "RejectedDup" if kind == "open" else "Illegal"))
+        except TimeoutError:
+            ctx.add(("out", "Fault"))
+        finally:
+            if kind == "monitor":
+                ctx.sigs[st[2]].fault_next = False
 
     def simple_plan(steps):
         for st in steps:
